@@ -178,14 +178,17 @@ def local_class(V):
     race(V, build_s3, [lambda ns, d=ins[i]: dict(ns['Local'](**d)), lambda ns, d=ins[j]: dict(ns['Local'](**d))], 'local-class')
 
 
-ITEMS_WATCHED = sched.code_objects(TypeRegistry.resolve)
+ITEMS_WATCHED = sched.code_objects(getattr(BaseParser, '_resolve_forward_refs', None), BaseParser.resolve_forward_refs,
+                                   getattr(Rule, '_parse_seq_args', None))
 
 
 @ob('first-parse/local-class-items', marks=['preempted'], budget=(150, 1200), per_path=(30, 60), thorough_only=True,
     bounds='two threads make the first parse of the function-local class on a list of two items of the later-defined class; '
-           'preemption points restricted to the converter lookups (TypeRegistry.resolve: consulted while the references are being '
-           're-pointed and again for every item type), every schedule with at most 2 preemptions: a thread that picked the item type up '
-           'before the other thread finished (and reset) the resolution must still convert every item')
+           'preemption points restricted to the resolution (resolve_forward_refs / _resolve_forward_refs) and to the item loop of the '
+           'sequence parser (Rule._parse_seq_args), every schedule with at most 2 preemptions: a thread that picked the item type up '
+           'before the other thread finished (and reset) the resolution must still convert every item',
+    out='preemption inside the converter lookups made while the references are re-pointed (TypeRegistry.resolve under 2 preemptions '
+        'is beyond the budget: 1651 schedules explored in 1200 s without closing) -- the seeded change C20-E lives there and is not detected')
 def local_class_items(V):
     d = {'lines': [{'v': 5}, {'v': '6'}]}
     race(V, build_s3, [lambda ns: dict(ns['Local'](**d)), lambda ns: dict(ns['Local'](**d))], 'local-class-items',
